@@ -14,14 +14,49 @@
      - call / return / unlock / lock callbacks at the scenario's notes.
    Pass 2 steps the model in that order with the same thread, the implementation's clock, and compares the step kind,
    the object index, ready times, enqueue / dequeue results, values stored / loaded, the number of records a
-   signal / broadcast takes, counter values and the returned index. *)
+   signal / broadcast takes, counter values and the returned index.
+
+   FOOTPRINTS (the tie of C13_waker_footprint to the code).  WaitNModel.step also returns `touched`, the set of
+   nsync_waiter_s records (thread, call number, index) that the model says the step accesses; the theorem says none of
+   them is dead.  The replay compares that set with the memory accesses the implementation made for the same step:
+     - pass 1 attaches to every action the traced events of its thread that implement the step: the whole bracket of a
+       ready_time / enqueue / notify / is_notified / add; for a note's dequeue the events before note_dequeue's own (the
+       leading nsync_note_notified_deadline_) -> the PDeqPre step, the rest -> PDeq; for cv_dequeue the events up to the
+       release store of pcv->word -> PDeq, every later spin load -> its own PDeqSpin step; for signal / broadcast the
+       events up to the linearization event -> the take, then per record the events up to and including wake_waiters'
+       store of `waiting` -> that PWake step and the semaphore events (nsync_semaphore_futex.c, futex wake) that follow it
+       (and anything else up to the end of the call, for the last one) -> the PWakeV step; the wait.c init store, free (nw),
+       the events of a P -> their own steps; call / return / callbacks have no events;
+     - pass 1 also names the records: a wait.c init store whose address is in a malloc'd block (count > 4) identifies
+       record (thread, number of the thread's earlier returns, number of earlier init stores of the call) by (block, offset) --
+       blocks are never reused by the runtime; a record of a call with count <= 4 lives on the caller's stack and the trace
+       gives only `stk<thread>` for it (no offset);
+     - pass 2, after every step, for every event of the step on a record: a heap record must be IN `touched` (exact
+       identity); for `stk<k>` some record of thread k's CURRENT call (call number = the model's `done` of k before the step)
+       must be in `touched`.  So a step whose footprint is [] (PWakeV, P, free, ...) may not access any record or any
+       thread's stack, and a waker's events after its store `waiting := 0` on r may access r no more (the footprint of
+       the later PWake steps is the REMAINING to_wake_list).  The store of a PWake step is compared with the record of the
+       model's EvWakeStore itself (exactly for the heap, owner and call for the stack); free's block must be the record
+       array of the model's current call; the init store's index is the model's;
+     - independently, at the trace position of EVERY atomic access (of any thread, attached to a step or not) to a
+       record, the model's record must be alive in the state reached by the actions located before it: for `stk<k>`,
+       thread k is inside an nsync_wait_n call (WaitNModel.in_call) that keeps its records on the stack (count <= nw_set_len);
+       for a heap record r, rcall r = done of its owner, the owner is in its call and not (WaitNModel.rec_dead r) (the boolean
+       forms are WaitNReplay.in_call_b / rec_dead_b, proved equivalent there).  Such an access must belong to a model step
+       (no record is accessed outside the steps), must come from a site whose target is a `waiting` word (Gen/Sites.json),
+       and an access into a record array at an offset that no init store named is rejected.
+   What this cannot compare: PLAIN accesses (tag, sem, flags, the dll links nsync_dll_* writes -- the reason the model's
+   footprints contain the whole list operated on) are not in the trace; `waiting` is the only atomic field of
+   struct nsync_waiter_s.  Those accesses are checked by the runtime itself while the trace is produced (use after free,
+   access to a dead stack frame abort the run).  For stack records the index is not identifiable (no offsets), so the
+   comparison is per (owner, call), not per record. *)
 open Rcommon
 open WaitNModel
 
 type expect =
   | XCall of WaitNModel.op
   | XReady of bool * int * string
-  | XInit of int
+  | XInit of int * int
   | XEnq of int * bool
   | XUnlock | XLock
   | XP of bool
@@ -35,15 +70,24 @@ type expect =
   | XTake of bool * int * int
   | XWStore | XV
   | XMuLock | XMuUnlock
+  | XAcc            (* not a step: the liveness check of one access to a record, at its own trace position *)
 
 type wop = WNone | WReady of int * bool | WEnq of int | WDeq of int | WAct of string * int * int
 type tst = { mutable cur : wop; mutable evs : (int * event) list; mutable in_call : bool; mutable p_open : bool;
              mutable last_ev : int; mutable kinds : char array;
-             mutable last_file : string }
+             mutable last_file : string;
+             mutable calls : int;                     (* number of `ret` notes of this thread so far = the model's `done` *)
+             mutable ninit : int;                     (* wait.c init stores of the current call so far *)
+             mutable pend : (int * event) list }      (* events of the open P, newest first *)
+
+(* what an event's address is, as far as records are concerned *)
+type reg = RNone | RStack of int | RHeap of (int * int * int) | RArray of (int * int)
 
 let site_of e = try Hashtbl.find sites (e.file, e.line) with Not_found -> ("", 0)
 let time_of_string s = if s = "none" then None else Some (z_of_int (int_of_string s))
 let string_of_time = function None -> "none" | Some z -> string_of_int (int_of_z z)
+let string_of_rid (r : WaitNModel.rid) = Printf.sprintf "(%d,%d,%d)" (int_of_nat (owner r)) (int_of_nat (rcall r)) (int_of_nat (ridx r))
+let string_of_rids l = "[" ^ String.concat " " (Stdlib.List.map string_of_rid l) ^ "]"
 
 let () =
   load_sites Sys.argv.(2);
@@ -55,10 +99,26 @@ let () =
   let now_at = Array.make (n + 1) 0 in
   let actions = ref [] in
   let nact = ref 0 in
-  let emit pos tid x = incr nact; actions := (pos, !nact, tid, x) :: !actions in
+  let attached : (int, unit) Hashtbl.t = Hashtbl.create 1024 in      (* trace positions of the events that belong to some step *)
+  let emit pos tid x evs =
+    incr nact; Stdlib.List.iter (fun (p, _) -> Hashtbl.replace attached p ()) evs;
+    actions := (pos, !nact, tid, x, evs) :: !actions in
+  let all_events = ref [] in
+  let recmap : (string, int * int * int) Hashtbl.t = Hashtbl.create 64 in     (* "blkN+off" -> (thread, call, index) *)
+  let arrmap : (string, int * int) Hashtbl.t = Hashtbl.create 16 in           (* "blkN" -> (thread, call): the array nw of that call *)
+  let classify e =
+    if e.kind = "malloc" || e.kind = "free" then RNone
+    else begin
+      let base = obj_region e.obj in
+      if String.length base > 3 && String.sub base 0 3 = "stk" then
+        (match int_of_string_opt (String.sub base 3 (String.length base - 3)) with Some k -> RStack k | None -> RNone)
+      else match Hashtbl.find_opt recmap e.obj with
+        | Some r -> RHeap r
+        | None -> (match Hashtbl.find_opt arrmap base with Some a -> RArray a | None -> RNone)
+    end in
   let objs = ref [] in
   let ths = Array.init 16 (fun _ -> { cur = WNone; evs = []; in_call = false; p_open = false; last_ev = 0; kinds = [||];
-                                     last_file = "" }) in
+                                     last_file = ""; calls = 0; ninit = 0; pend = [] }) in
   let skipped = ref 0 in
   let mutex_v : (string, int list) Hashtbl.t = Hashtbl.create 16 in
   let mutex_p : (string, int list) Hashtbl.t = Hashtbl.create 16 in
@@ -73,7 +133,9 @@ let () =
   let first_such f evs = match Stdlib.List.filter f evs with x :: _ -> Some x | [] -> None in
   let note_lin pos evs = match first_such is_nstore evs with Some (p, _) -> p | None -> fst (last_such pos is_nload evs) in
   let in_fn name (_, e) = fst (site_of e) = name in
-  let close_p st tid = if st.p_open then begin emit st.last_ev tid (XP false); st.p_open <- false end in
+  let is_sem (_, e) = e.file = "nsync_semaphore_futex.c" || e.kind = "fwake" || e.kind = "fwait" in
+  let close_p st tid =
+    if st.p_open then begin emit st.last_ev tid (XP false) (Stdlib.List.rev st.pend); st.pend <- []; st.p_open <- false end in
   let cur_now = ref 0 in
   (try
     for pos = 0 to n - 1 do
@@ -82,6 +144,7 @@ let () =
         (match parse_event line with
          | Some e ->
            cur_now := e.now;
+           all_events := (pos, e) :: !all_events;
            (* posts and takes that belong to nsync_mu_lock sleeps (not part of this model): a V whose caller came from mu.c, a
               success of the untimed nsync_mu_semaphore_p *)
            if e.file = "nsync_semaphore_futex.c" && e.kind = "cas" && e.ok then begin
@@ -97,12 +160,31 @@ let () =
              (match st.cur with
               | WNone ->
                 if st.in_call then begin
-                  if e.file = "wait.c" && e.kind = "store" then emit pos e.tid (XInit e.b)
-                  else if e.kind = "free" then emit pos e.tid XFree
+                  if e.file = "wait.c" && e.kind = "store" then begin
+                    let i = st.ninit in
+                    st.ninit <- i + 1;
+                    let base = obj_region e.obj in
+                    if String.length base > 3 && String.sub base 0 3 = "blk" then begin
+                      if Hashtbl.mem recmap e.obj then fail_at pos "footprint: two init stores at the same heap address";
+                      (match Hashtbl.find_opt arrmap base with
+                       | Some a when a <> (e.tid, st.calls) -> fail_at pos "footprint: the record arrays of two calls share a block"
+                       | _ -> ());
+                      Hashtbl.replace recmap e.obj (e.tid, st.calls, i);
+                      Hashtbl.replace arrmap base (e.tid, st.calls)
+                    end;
+                    emit pos e.tid (XInit (e.b, i)) [(pos, e)]
+                  end
+                  else if e.kind = "free" then emit pos e.tid XFree [(pos, e)]
                   else if e.file = "nsync_semaphore_futex.c" && fst (site_of e) = "nsync_mu_semaphore_p_with_deadline" then begin
                     st.p_open <- true;
-                    if e.kind = "cas" && e.ok then begin Hashtbl.replace p_addr pos e.obj; emit pos e.tid (XP true); st.p_open <- false end
-                  end else incr skipped
+                    st.pend <- (pos, e) :: st.pend;
+                    if e.kind = "cas" && e.ok then begin
+                      Hashtbl.replace p_addr pos e.obj; emit pos e.tid (XP true) (Stdlib.List.rev st.pend); st.pend <- []; st.p_open <- false
+                    end
+                  end else begin
+                    if st.p_open then st.pend <- (pos, e) :: st.pend;      (* futex wait, clock read, ... of the open P *)
+                    incr skipped
+                  end
                 end else incr skipped
               | _ -> st.evs <- (pos, e) :: st.evs);
              st.last_ev <- pos
@@ -118,14 +200,14 @@ let () =
            let cnt = int_of_string cnt in
            let kinds = Array.of_list (Stdlib.List.map (fun s -> s.[0]) kinds) in
            if Array.length kinds <> cnt then fail_at pos "call note: kinds do not match count";
-           st.kinds <- kinds; st.in_call <- true;
+           st.kinds <- kinds; st.in_call <- true; st.ninit <- 0; st.pend <- [];
            let os = Stdlib.List.mapi (fun i k -> match k with 'N' -> ONote (nat_of_int i) | 'C' -> OCounter (nat_of_int i) | _ -> OCv (nat_of_int i))
                       (Array.to_list kinds) in
-           emit pos tid (XCall (OpWaitN ((if mu = "1" then Some (nat_of_int 0) else None), time_of_string dl, os)))
+           emit pos tid (XCall (OpWaitN ((if mu = "1" then Some (nat_of_int 0) else None), time_of_string dl, os))) []
          | ["N"; _; "ret"; tid; r] ->
            let tid = int_of_string tid in
            close_p ths.(tid) tid;
-           ths.(tid).in_call <- false; emit pos tid (XRet (int_of_string r))
+           ths.(tid).in_call <- false; ths.(tid).calls <- ths.(tid).calls + 1; emit pos tid (XRet (int_of_string r)) []
          | ["N"; _; "rb"; tid; j; first] ->
            let tid = int_of_string tid in let st = ths.(tid) in
            close_p st tid; st.cur <- WReady (int_of_string j, first = "1"); st.evs <- []
@@ -138,7 +220,7 @@ let () =
                   | 'N' -> note_lin pos evs
                   | 'C' -> fst (last_such pos (fun (_, e) -> e.kind = "load" && fst (site_of e) = "counter_ready_time") evs)
                   | _ -> if first then pos else fst (last_such pos (in_fn "cv_ready_time") evs)) in
-              emit lin tid (XReady (first, j, tm))
+              emit lin tid (XReady (first, j, tm)) evs
             | _ -> fail_at pos "re without rb");
            st.cur <- WNone
          | ["N"; _; "qb"; tid; j] -> let st = ths.(int_of_string tid) in st.cur <- WEnq (int_of_string j); st.evs <- []
@@ -151,7 +233,7 @@ let () =
                   | 'N' -> fst (last_such pos (fun (p, e) -> e.kind = "store" && in_fn "note_enqueue" (p, e)) evs)
                   | 'C' -> fst (last_such pos (fun (p, e) -> e.kind = "store" && in_fn "counter_enqueue" (p, e)) evs)
                   | _ -> fst (last_such pos (fun (_, e) -> site_of e = ("cv_enqueue", 2)) evs)) in
-              emit lin tid (XEnq (j, r = "1"))
+              emit lin tid (XEnq (j, r = "1")) evs
             | _ -> fail_at pos "qe without qb");
            st.cur <- WNone
          | ["N"; _; "db"; tid; j] ->
@@ -168,18 +250,28 @@ let () =
                    | x :: rest when not (in_fn "note_dequeue" x) -> split (x :: acc) rest
                    | l -> (Stdlib.List.rev acc, l) in
                  let (pre, cs) = split [] evs in
-                 emit (note_lin pos pre) tid (XDeqPre j);
-                 emit (fst (last_such pos (in_fn "note_dequeue") cs)) tid (XDeq (j, r = "1"))
-               | 'C' -> emit (fst (last_such pos (in_fn "counter_dequeue") evs)) tid (XDeq (j, r = "1"))
+                 emit (note_lin pos pre) tid (XDeqPre j) pre;
+                 emit (fst (last_such pos (in_fn "note_dequeue") cs)) tid (XDeq (j, r = "1")) cs
+               | 'C' -> emit (fst (last_such pos (in_fn "counter_dequeue") evs)) tid (XDeq (j, r = "1")) evs
                | _ ->
-                 emit (fst (last_such pos (fun (_, e) -> site_of e = ("cv_dequeue", 3)) evs)) tid (XDeq (j, r = "1"));
-                 Stdlib.List.iter (fun (p, e) -> if site_of e = ("cv_dequeue", 4) then emit p tid (XSpin (j, e.a))) evs)
+                 (* the critical section ends with the release store of pcv->word; every later load of nw->waiting is a step *)
+                 let rec split acc = function
+                   | x :: rest -> if site_of (snd x) = ("cv_dequeue", 3) then (Stdlib.List.rev (x :: acc), rest) else split (x :: acc) rest
+                   | [] -> fail_at pos "no linearization event found" in
+                 let (cs, after) = split [] evs in
+                 let groups = ref [ (fst (last_such pos (fun (_, e) -> site_of e = ("cv_dequeue", 3)) cs), XDeq (j, r = "1"), cs) ] in
+                 let g = ref [] in
+                 Stdlib.List.iter (fun (p, e) ->
+                     g := (p, e) :: !g;
+                     if site_of e = ("cv_dequeue", 4) then begin groups := (p, XSpin (j, e.a), Stdlib.List.rev !g) :: !groups; g := [] end) after;
+                 (match !groups with (p, x, l) :: tl -> groups := (p, x, l @ Stdlib.List.rev !g) :: tl | [] -> ());
+                 Stdlib.List.iter (fun (p, x, l) -> emit p tid x l) (Stdlib.List.rev !groups))
             | _ -> fail_at pos "de without db");
            st.cur <- WNone
-         | ["N"; _; "unlock"; tid] -> emit pos (int_of_string tid) XUnlock
-         | ["N"; _; "lock"; tid] -> emit pos (int_of_string tid) XLock
-         | ["N"; _; "mulock"; tid] -> emit pos (int_of_string tid) XMuLock
-         | ["N"; _; "muunlock"; tid] -> emit pos (int_of_string tid) XMuUnlock
+         | ["N"; _; "unlock"; tid] -> emit pos (int_of_string tid) XUnlock []
+         | ["N"; _; "lock"; tid] -> emit pos (int_of_string tid) XLock []
+         | ["N"; _; "mulock"; tid] -> emit pos (int_of_string tid) XMuLock []
+         | ["N"; _; "muunlock"; tid] -> emit pos (int_of_string tid) XMuUnlock []
          | "N" :: _ :: "ab" :: tid :: what :: i :: rest ->
            let st = ths.(int_of_string tid) in
            st.cur <- WAct (what, int_of_string i, (match rest with d :: _ -> int_of_string d | [] -> 0)); st.evs <- []
@@ -187,20 +279,39 @@ let () =
            let tid = int_of_string tid in let st = ths.(tid) in
            let evs = Stdlib.List.rev st.evs in
            (match st.cur with
-            | WAct ("notify", i, _) -> emit (note_lin pos evs) tid (XNotify i)
-            | WAct ("poll", i, _) -> emit (note_lin pos evs) tid (XPoll i)
+            | WAct ("notify", i, _) -> emit (note_lin pos evs) tid (XNotify i) evs
+            | WAct ("poll", i, _) -> emit (note_lin pos evs) tid (XPoll i) evs
             | WAct ("add", i, d) ->
               let (p, e) = last_such pos (fun (_, e) -> e.kind = "cas" && e.ok && fst (site_of e) = "nsync_counter_add") evs in
-              emit p tid (XAdd (i, d, e.b))
+              emit p tid (XAdd (i, d, e.b)) evs
             | WAct (("signal" | "broadcast") as what, i, _) ->
               let fn = if what = "signal" then "nsync_cv_signal" else "nsync_cv_broadcast" in
               let rel = first_such (fun (_, e) -> e.kind = "store" && e.file = "cv.c" && fst (site_of e) = fn) evs in
               let lin = (match rel with Some (p, _) -> p | None -> fst (last_such pos (fun (_, e) -> site_of e = (fn, 1)) evs)) in
-              let wst = Stdlib.List.filter (fun (_, e) -> site_of e = ("wake_waiters", 6)) evs in
-              emit lin tid (XTake (what = "signal", i, Stdlib.List.length wst));
-              Stdlib.List.iter (fun (p, e) ->
-                  if site_of e = ("wake_waiters", 6) then emit p tid XWStore
-                  else if e.kind = "cas" && e.ok && fst (site_of e) = "nsync_mu_semaphore_v" then emit p tid XV) evs
+              let take_evs = Stdlib.List.filter (fun (p, _) -> p <= lin) evs in
+              let after = Stdlib.List.filter (fun (p, _) -> p > lin) evs in
+              (* segments of wake_waiters' final loop: each ends with a store of `waiting`; `rest` follows the last store *)
+              let rec segs acc g = function
+                | [] -> (Stdlib.List.rev acc, Stdlib.List.rev g)
+                | x :: tl -> if site_of (snd x) = ("wake_waiters", 6) then segs (Stdlib.List.rev (x :: g) :: acc) [] tl else segs acc (x :: g) tl in
+              let (sg, rest) = segs [] [] after in
+              let k = Stdlib.List.length sg in
+              if k = 0 then emit lin tid (XTake (what = "signal", i, 0)) evs
+              else begin
+                emit lin tid (XTake (what = "signal", i, k)) take_evs;
+                let arr = Array.of_list sg in
+                for m = 0 to k - 1 do
+                  let seg = arr.(m) in
+                  (* the semaphore events inside a later segment are the V of the record before *)
+                  let mine = if m = 0 then seg else Stdlib.List.filter (fun x -> not (is_sem x)) seg in
+                  let (sp, _) = Stdlib.List.nth seg (Stdlib.List.length seg - 1) in
+                  emit sp tid XWStore mine;
+                  let vevs = if m = k - 1 then rest else Stdlib.List.filter is_sem arr.(m + 1) in
+                  (match first_such (fun (_, e) -> e.kind = "cas" && e.ok && fst (site_of e) = "nsync_mu_semaphore_v") vevs with
+                   | Some (p, _) -> emit p tid XV vevs
+                   | None -> fail_at sp "wake_waiters: no successful nsync_mu_semaphore_v after this store of waiting")
+                done
+              end
             | _ -> fail_at pos "ae without ab");
            st.cur <- WNone
          | _ -> ())
@@ -208,8 +319,11 @@ let () =
       now_at.(pos) <- !cur_now
     done
   with Mismatch m -> Printf.printf "MISMATCH %s\n" m; exit 1);
+  (* the liveness check of every access to a record: a pseudo-action at the access's position, after the real action there *)
+  let accs = Stdlib.List.filter (fun (_, e) -> classify e <> RNone) (Stdlib.List.rev !all_events) in
+  let accs = Stdlib.List.mapi (fun i (p, e) -> (p, !nact + 1 + i, e.tid, XAcc, [(p, e)])) accs in
   (* ---------- pass 2 ---------- *)
-  let acts = Stdlib.List.sort (fun (p1, s1, _, _) (p2, s2, _, _) -> compare (p1, s1) (p2, s2)) !actions in
+  let acts = Stdlib.List.sort (fun (p1, s1, _, _, _) (p2, s2, _, _, _) -> compare (p1, s1) (p2, s2)) (!actions @ accs) in
   let w = ref WaitNReplay.world0 in
   Stdlib.List.iter (fun (i, rest) ->
       match rest with
@@ -218,9 +332,39 @@ let () =
       | _ -> ()) !objs;
   let steps = ref 0 in
   let max_count = ref 0 in
+  let rid_of (k, c, i) : WaitNModel.rid = ((nat_of_int k, nat_of_int c), nat_of_int i) in
+  let done_i w k = int_of_nat (WaitNReplay.done_of w (nat_of_int k)) in
   (try
-    Stdlib.List.iter (fun (pos, _, tid, x) ->
-        let fail msg = fail_at pos msg in
+    Stdlib.List.iter (fun (pos, _, tid, x, evs) ->
+      let fail msg = fail_at pos msg in
+      if (match x with XAcc -> true | _ -> false) then begin
+        (* the model state is the one reached by the actions located at or before this trace position *)
+        let e = snd (Stdlib.List.hd evs) in
+        let what = Printf.sprintf "footprint: thread %d's atomic access (%s:%d)" tid e.file e.line in
+        let live_owner k = WaitNReplay.in_call_b !w (nat_of_int k) in
+        (match classify e with
+         | RStack k ->
+           cover "fp_live_stack";
+           if tid <> k then cover "fp_other_thread_access";
+           if not (live_owner k) then
+             fail (Printf.sprintf "%s to thread %d's stack while the model's thread %d is not inside an nsync_wait_n call" what k k);
+           if int_of_nat (WaitNReplay.count_of !w (nat_of_int k)) > int_of_nat WaitNModel.nw_set_len then
+             fail (Printf.sprintf "%s to thread %d's stack while the model's call of thread %d keeps its records on the heap" what k k);
+           if WaitNReplay.rec_dead_b !w (rid_of (k, done_i !w k, 0)) then fail (Printf.sprintf "%s to a dead record of thread %d" what k)
+         | RHeap ((k, c, _) as r) ->
+           cover "fp_live_heap";
+           if tid <> k then cover "fp_other_thread_access";
+           if done_i !w k <> c || not (live_owner k) || WaitNReplay.rec_dead_b !w (rid_of r) then
+             fail (Printf.sprintf "%s to record %s, which is dead in the model (its call returned, or its array was freed)" what (string_of_rid (rid_of r)))
+         | RArray (k, c) ->
+           fail (Printf.sprintf "%s into the record array of call %d of thread %d at an offset that is no `waiting` word" what c k)
+         | RNone -> ());
+        if not (Hashtbl.mem attached pos) then fail (what ^ " to a record belongs to no step of the model");
+        (match (try Some (Hashtbl.find site_targets (e.file, e.line)) with Not_found -> None) with
+         | Some tg when String.length tg >= 8 && String.sub tg 0 8 = "waiting." -> cover "fp_waiting_site"
+         | Some tg -> fail (Printf.sprintf "%s to a record comes from a site whose target is %s, not a `waiting` word" what tg)
+         | None -> fail (what ^ " to a record comes from no site of Gen/Sites.json"))
+      end else begin
         let t = nat_of_int tid in
         w := WaitNReplay.clock_to !w (z_of_int now_at.(pos));
         let idle () = (match WaitNReplay.pc_of !w t with PIdle -> () | _ -> fail "the model's thread is not idle where the implementation starts a new operation") in
@@ -250,7 +394,8 @@ let () =
              cover "stale_post"
            end
          | _ -> ());
-        let ((w', ev), _touched) = WaitNModel.step !w t (match x with XP false -> true | _ -> false) in
+        let w0 = !w in                               (* the state the step is taken in: its `done` numbers the current calls *)
+        let ((w', ev), touched) = WaitNModel.step !w t (match x with XP false -> true | _ -> false) in
         w := w'; incr steps;
         let name = (match ev with
             | EvNone -> "none" | EvCall -> "call" | EvReady (true, _, _) -> "ready_first" | EvReady (false, _, _) -> "ready_loop"
@@ -267,7 +412,9 @@ let () =
          | XReady (f, j, tm), EvReady (f', j', nt) ->
            if f <> f' || j <> int_of_nat j' then bad (Printf.sprintf "ready_time(first=%b) of object %d" f j);
            if string_of_time nt <> tm then fail (Printf.sprintf "ready_time of object %d: implementation %s, model %s" j tm (string_of_time nt))
-         | XInit v, EvInit (_, v') -> if int_of_z v' <> v then fail "init store value differs"
+         | XInit (v, i), EvInit (i', v') ->
+           if int_of_z v' <> v then fail "init store value differs";
+           if int_of_nat i' <> i then fail (Printf.sprintf "init store: the implementation's is the %d-th of the call, the model's has index %d" i (int_of_nat i'))
          | XEnq (j, r), EvEnq (j', r') ->
            if j <> int_of_nat j' then bad (Printf.sprintf "enqueue of object %d" j);
            if r <> r' then fail (Printf.sprintf "enqueue of object %d: implementation returned %b, model %b" j r r')
@@ -298,14 +445,60 @@ let () =
          | XP true, _ -> bad "a successful P" | XP false, _ -> bad "a timed-out P" | XDeqPre _, _ -> bad "dequeue (deadline part)"
          | XDeq _, _ -> bad "dequeue" | XSpin _, _ -> bad "cv_dequeue spin load" | XFree, _ -> bad "free (nw)" | XRet _, _ -> bad "return"
          | XNotify _, _ -> bad "notify" | XPoll _, _ -> bad "is_notified" | XAdd _, _ -> bad "counter add" | XTake _, _ -> bad "signal/broadcast"
-         | XWStore, _ -> bad "wake_waiters store" | XV, _ -> bad "semaphore V" | XMuLock, _ -> bad "mu lock" | XMuUnlock, _ -> bad "mu unlock");
+         | XWStore, _ -> bad "wake_waiters store" | XV, _ -> bad "semaphore V" | XMuLock, _ -> bad "mu lock" | XMuUnlock, _ -> bad "mu unlock"
+         | XAcc, _ -> ());
+        (* ---------- the step's footprint against the step's accesses ---------- *)
+        let current k (r : WaitNModel.rid) = int_of_nat (owner r) = k && int_of_nat (rcall r) = done_i w0 k in
+        Stdlib.List.iter (fun (p, e) ->
+            let what = Printf.sprintf "footprint: step %s of thread %d accesses (%s:%d, %s)" name tid e.file e.line e.obj in
+            match classify e with
+            | RStack k ->
+              cover "fp_stack_checked";
+              if not (Stdlib.List.exists (current k) touched) then
+                fail_at p (Printf.sprintf "%s a record on thread %d's stack; the model's footprint %s of the step has no record of call %d of thread %d"
+                             what k (string_of_rids touched) (done_i w0 k) k)
+            | RHeap r ->
+              cover "fp_heap_checked";
+              if not (WaitNModel.mem (rid_of r) touched) then
+                fail_at p (Printf.sprintf "%s record %s, which is not in the model's footprint %s of the step" what (string_of_rid (rid_of r)) (string_of_rids touched))
+            | RArray _ | RNone -> ()) evs;
+        (match x, ev with
+         | XWStore, EvWakeStore (r, _) ->
+           (* the store itself is on the record the model wakes *)
+           let (p, e) = Stdlib.List.nth evs (Stdlib.List.length evs - 1) in
+           cover "fp_waker_store";
+           let ok = (match classify e with
+               | RStack k -> current k r
+               | RHeap r' -> WaitNModel.rid_eqb (rid_of r') r
+               | RArray _ | RNone -> false) in
+           if not ok then fail_at p (Printf.sprintf "footprint: wake_waiters' store of waiting is at %s, the model wakes record %s" e.obj (string_of_rid r))
+         | XFree, EvFree ->
+           let (p, e) = Stdlib.List.hd evs in
+           cover "fp_free_block";
+           if Hashtbl.find_opt arrmap (obj_region e.obj) <> Some (tid, done_i w0 tid) then
+             fail_at p (Printf.sprintf "footprint: free of %s, which is not the record array of call %d of thread %d" e.obj (done_i w0 tid) tid)
+         | _ -> ());
+        (* the mutex clause (C11_mutex_state): the scenario's caller satisfies the precondition of the theorems (it holds the mutex it passes:
+           the ghost f_held, computed from the lock / unlock operations replayed so far), and the model's holder agrees with the phase of the
+           call at every step of it: held until the unlock callback, not held at any P, held again at the return *)
+        (if WaitNReplay.in_call_b !w t && WaitNReplay.has_mu !w t then begin
+           cover "mutex_state_checked";
+           let hold = WaitNReplay.holder_is !w t and unl = WaitNReplay.unlocked_of !w t in
+           let at_ret = (match WaitNReplay.pc_of !w t with PRet -> true | _ -> false) in
+           (match x with XCall _ -> if not (WaitNReplay.held_of !w t) then fail "mutex: the caller does not hold the mutex it passes to nsync_wait_n (model ghost f_held = false)" | _ -> ());
+           if not unl && not hold then fail "mutex: model: the caller lost the mutex before the unlock callback";
+           if unl && not at_ret && hold then fail "mutex: model: the caller holds the mutex between the unlock and the lock callback";
+           if unl && at_ret && not hold then fail "mutex: model: the caller does not hold the mutex at the return";
+           (match x with XP _ -> cover "mutex_p_not_held"; if hold then fail "mutex: a P of the implementation where the model's caller holds the mutex" | _ -> ())
+         end);
         (* the model's own verdicts at a return *)
         (match x with
          | XRet r ->
            let c = int_of_nat (WaitNReplay.done_of !w t) - 1 in
            if WaitNReplay.any_on_list !w t (nat_of_int c) (nat_of_int 8) then fail "model: a record of the returned call is still on a list";
            ignore r
-         | _ -> ()))
+         | _ -> ())
+      end)
       acts;
     (* every thread of the model must be idle with an empty program at the end *)
     for tid = 1 to 15 do
